@@ -40,3 +40,5 @@ LEMMAS = [lemma_frictionless]
 
 from shell import runtime as _runtime
 SHELL = [_runtime.contracts_at_run_time]
+
+USES_SUM_LEMMAS = True
